@@ -191,11 +191,6 @@ class Model(object):
             s.target_host = host
             s.target_port = int(port)
         if status in ('NEW', 'NEWRESOLVE', 'SUCCEEDED'):
-            if not s.target_known:
-                host, _, port = tok[3].rpartition(':')
-                s.target_host = host
-                s.target_port = int(port)
-                s.target_known = True
             if status == 'NEW':
                 s.had_new = True
                 self.notifications.append(('stream', s, 'new', None))
@@ -781,7 +776,7 @@ class StateRun(object):
             if rs.id != sid or rs.state != ms.state:
                 sim.fail(P + '.stream-status', 'stream %d: state %r, Tor last said %r' % (sid, rs.state, ms.state))
             if rs.target_host != ms.target_host or int(rs.target_port) != ms.target_port:
-                if not ms.target_known and rs.target_host is None:
+                if ms.first_status not in ('NEW', 'NEWRESOLVE', 'SUCCEEDED') and rs.target_host is None:
                     sim.fail(P + '.stream-target-missing-first-seen-mid-state',
                              'stream %d was first reported in state %s (status snapshot): target is %r:%r, Tor said %r:%r' % (
                                  sid, ms.first_status, rs.target_host, rs.target_port, ms.target_host, ms.target_port))
